@@ -88,8 +88,14 @@ def _sentinel_tests(g, var, sentinel):
                     for b in osucc
                 )
                 out.append((n.id, rets, clean))
+                if rets:
+                    _SENTINEL_RETURNS.setdefault(id(g), set()).update(osucc)
                 break
     return out
+
+
+#: {id(cfg): node ids of `return <sentinel>` / `return <tested variable>` statements accepted as the sentinel branch}
+_SENTINEL_RETURNS: dict = {}
 
 
 def _only_identity_tests_on(test, var):
@@ -169,6 +175,8 @@ def r1(ctx):
                 early = []
                 for u in uses:
                     for nid in g.nodes_containing(u):
+                        if nid in _SENTINEL_RETURNS.get(id(g), ()):
+                            continue  # `return v` in the branch where v IS the sentinel
                         if nid != t and nid in allowed and g.nodes[nid].kind != "entry":
                             early.append(g.nodes[nid].describe())
                 if early:
@@ -343,7 +351,9 @@ def _guard_marker(kind: str, node: ast.AST) -> bool:
         wild = any("%" in c for c in consts) and any("_" in c and len(c) <= 3 for c in consts)
         esc = any(c in ("escape", "autoescape") for c in consts) and any(
             isinstance(n, ast.Attribute) and n.attr == "modifiers" for n in ast.walk(node))
-        return wild or esc
+        # both halves are needed: the wildcards of an unescaped operand, and the escape character of an escaped one (with
+        # escape= / autoescape=True the evaluator is handed the ESCAPED pattern 'a/_b', which no column value starts with)
+        return wild and esc
     if kind == "like-pattern":
         return any(n.startswith("re.") or "regex" in n for n in names)
     return False
@@ -404,7 +414,10 @@ def r3(ctx):
                 if how == "custom":
                     ctx.error(f"{key}: custom evaluator for diverging operator {op}: no recognised guard ({d['guard']})")
                 shown = f"`{_norm_lambda(lam)}`" if lam is not None else "the Python operator itself"
-                ctx.violation(key, f"{op} is evaluated with plain Python semantics ({shown}) but SQL differs: {d['why']}; "
+                more = ("; with escape= / autoescape=True the operand handed to the Python comparison is the escaped pattern "
+                        "('a/_b' for 'a_b'), so rows that match in SQL never match in Python (both the wildcards and the "
+                        "`escape` modifier must be handled)") if d["guard"] == "like-wildcards" else ""
+                ctx.violation(key, f"{op} is evaluated with plain Python semantics ({shown}) but SQL differs: {d['why']}{more}; "
                                    f"neither guarded ({d['guard']}) nor UnevaluatableError", loc)
             else:
                 ctx.ok(key, f"guarded ({d['guard']})")
@@ -678,11 +691,22 @@ def _tokenish(e, aliases=()):
     return False
 
 
-def _token_aliases(fn):
-    """locals of fn that hold an identity token: bound from a token-valued expression, or handed on as `identity_token=<name>`"""
+def _returns_token(fn, mod_funcs, depth=2):
+    """does function `fn` return an identity-token-valued expression on some path (a helper extracted around a token lookup)"""
+    al = _token_aliases(fn, mod_funcs if depth > 0 else None, depth - 1)
+    return any(isinstance(r, ast.Return) and r.value is not None and _tokenish(r.value, al) for r in walk_local(fn))
+
+
+def _token_aliases(fn, mod_funcs=None, depth=2):
+    """locals of fn that hold an identity token: bound from a token-valued expression, from a same-module helper that
+    returns one, or handed on as `identity_token=<name>`"""
     al = set()
     for n in walk_local(fn):
         if isinstance(n, ast.Assign) and len(n.targets) == 1 and isinstance(n.targets[0], ast.Name) and _tokenish(n.value):
+            al.add(n.targets[0].id)
+        if (mod_funcs and depth > 0 and isinstance(n, ast.Assign) and len(n.targets) == 1 and isinstance(n.targets[0], ast.Name)
+                and isinstance(n.value, ast.Call) and isinstance(n.value.func, ast.Name) and n.value.func.id in mod_funcs
+                and mod_funcs[n.value.func.id] is not fn and _returns_token(mod_funcs[n.value.func.id], mod_funcs, depth - 1)):
             al.add(n.targets[0].id)
         if isinstance(n, ast.Call):
             for k in n.keywords:
@@ -699,10 +723,10 @@ def _is_none_test(e, aliases=()):
     return None
 
 
-def _token_tests(fn):
+def _token_tests(fn, mod_funcs=None):
     """[(kind, node shown, token expr)] for every boolean test in fn that involves an identity-token-valued expression;
     kind: 'none' (is None / is not None), 'cmp' (==, !=, in), 'truth' (truthiness: if x / not x / x and.. / x or.. / bool(x))"""
-    aliases = _token_aliases(fn)
+    aliases = _token_aliases(fn, mod_funcs)
     pm = {ch: p for p in ast.walk(fn) for ch in ast.iter_child_nodes(p)}
     out = []
     for e in walk_local(fn):
@@ -738,10 +762,11 @@ def r5(ctx):
     for m in ctx.index.all_modules():
         if not (m.relpath.startswith("orm/") or m.relpath.startswith("ext/")) or "identity_token" not in m.source:
             continue
+        mod_funcs = {name: f_.node for name, f_ in m.functions.items() if isinstance(f_.node, ast.FunctionDef)}
         for fi in ctx.index.all_functions(m):
             if fi.type_only or fi.is_overload:
                 continue
-            tests = _token_tests(fi.node)
+            tests = _token_tests(fi.node, mod_funcs)
             if not tests:
                 continue
             ctx.functions_analysed.add(fi.key)
@@ -1058,10 +1083,28 @@ R.mutant("shard-lookup-token-test-by-truthiness", "ext/horizontal_shard.py",
 R.mutant("benign-matched-objects-single-pass", BP,
          sub(_MATCH_OLD, "        identity_token = update_options._identity_token\n\n        raw_data = [\n            (state.obj(), state, state.dict)\n            for state in states\n            if state.mapper.isa(mapper)\n            and not state.expired\n            and (identity_token is None or state.identity_token == identity_token)\n        ]\n"),
          None)
-# the repair of the R5 finding must not raise anything new
-R.mutant("fix-get-options-token-is-not-none", "orm/loading.py",
-         sub("    if identity_token:\n        load_options[\"_identity_token\"] = identity_token\n", "    if identity_token is not None:\n        load_options[\"_identity_token\"] = identity_token\n"),
+# the R5 finding is repaired in the tree (fix 1bc97a0); the repaired test may be written either way round, a relapse fires
+R.mutant("benign-get-options-token-test-inverted-arms", "orm/loading.py",
+         sub("    if identity_token is not None:\n        load_options[\"_identity_token\"] = identity_token\n",
+             "    if identity_token is None:\n        pass\n    else:\n        load_options[\"_identity_token\"] = identity_token\n"),
          None)
+R.mutant("get-options-token-test-by-truthiness-again", "orm/loading.py",
+         sub("    if identity_token is not None:\n        load_options[\"_identity_token\"] = identity_token\n",
+             "    if identity_token:\n        load_options[\"_identity_token\"] = identity_token\n"),
+         "C43-R5")
+# a token lookup extracted into a module helper keeps the tests on its result in the family (stored refactor rfI_15)
+R.mutant("benign-shard-id-lookup-in-helper", "ext/horizontal_shard.py",
+         chain(sub("    for orm_opt in orm_context._non_compile_orm_options:\n        # TODO: if we had an ORMOption that gets applied at ORM statement\n        # execution time, that would allow this to be more generalized.\n        # for now just iterate and look for our options\n        if isinstance(orm_opt, set_shard_id):\n            shard_id = orm_opt.shard_id\n            break\n    else:\n        if active_options and active_options._identity_token is not None:\n            shard_id = active_options._identity_token\n        elif \"_sa_shard_id\" in orm_context.execution_options:\n            shard_id = orm_context.execution_options[\"_sa_shard_id\"]\n        elif \"shard_id\" in orm_context.bind_arguments:\n            shard_id = orm_context.bind_arguments[\"shard_id\"]\n        else:\n            shard_id = None\n",
+                   "    shard_id = _requested_shard(orm_context, active_options)\n"),
+               sub("def execute_and_instances(\n",
+                   "def _requested_shard(orm_context, active_options):\n    for orm_opt in orm_context._non_compile_orm_options:\n        if isinstance(orm_opt, set_shard_id):\n            return orm_opt.shard_id\n    if active_options and active_options._identity_token is not None:\n        return active_options._identity_token\n    elif \"_sa_shard_id\" in orm_context.execution_options:\n        return orm_context.execution_options[\"_sa_shard_id\"]\n    elif \"shard_id\" in orm_context.bind_arguments:\n        return orm_context.bind_arguments[\"shard_id\"]\n    return None\n\n\ndef execute_and_instances(\n")),
+         None)
+R.mutant("shard-id-from-helper-tested-by-truthiness", "ext/horizontal_shard.py",
+         chain(sub("    for orm_opt in orm_context._non_compile_orm_options:\n        # TODO: if we had an ORMOption that gets applied at ORM statement\n        # execution time, that would allow this to be more generalized.\n        # for now just iterate and look for our options\n        if isinstance(orm_opt, set_shard_id):\n            shard_id = orm_opt.shard_id\n            break\n    else:\n        if active_options and active_options._identity_token is not None:\n            shard_id = active_options._identity_token\n        elif \"_sa_shard_id\" in orm_context.execution_options:\n            shard_id = orm_context.execution_options[\"_sa_shard_id\"]\n        elif \"shard_id\" in orm_context.bind_arguments:\n            shard_id = orm_context.bind_arguments[\"shard_id\"]\n        else:\n            shard_id = None\n\n    if shard_id is not None:\n",
+                   "    shard_id = _requested_shard(orm_context, active_options)\n\n    if shard_id:\n"),
+               sub("def execute_and_instances(\n",
+                   "def _requested_shard(orm_context, active_options):\n    for orm_opt in orm_context._non_compile_orm_options:\n        if isinstance(orm_opt, set_shard_id):\n            return orm_opt.shard_id\n    if active_options and active_options._identity_token is not None:\n        return active_options._identity_token\n    elif \"_sa_shard_id\" in orm_context.execution_options:\n        return orm_context.execution_options[\"_sa_shard_id\"]\n    elif \"shard_id\" in orm_context.bind_arguments:\n        return orm_context.bind_arguments[\"shard_id\"]\n    return None\n\n\ndef execute_and_instances(\n")),
+         "C43-R5")
 R.mutant("matched-objects-token-filter-inverted", BP,
          sub("                for obj, state, dict_ in raw_data\n                if state.identity_token == identity_token\n",
              "                for obj, state, dict_ in raw_data\n                if state.identity_token != identity_token\n"),
@@ -1188,4 +1231,13 @@ R.mutant("prefetch-helper-form-loses-options", BP,
 R.mutant("benign-evaluate-condition-criteria-collected-in-a-list", BP,
          sub("        crit = ()\n        if statement._where_criteria:\n            crit += statement._where_criteria\n\n        global_attributes = {}\n        for opt in statement._with_options:\n            if opt._is_criteria_option:\n                opt.get_global_criteria(global_attributes)\n\n        if global_attributes:\n            crit += cls._adjust_for_extra_criteria(global_attributes, mapper)\n",
              "        criteria = list(statement._where_criteria)\n\n        extra = {}\n        for option in statement._with_options:\n            if not option._is_criteria_option:\n                continue\n            option.get_global_criteria(extra)\n\n        if extra:\n            criteria.extend(cls._adjust_for_extra_criteria(extra, mapper))\n        crit = tuple(criteria)\n"),
+         None)
+# C43-R3, LIKE family (round-2 observation: the operand of an escaped / autoescaped startswith() reaches the evaluator in
+# its escaped form): a guard has to deal with the wildcards AND with the escape modifier; one that does both clears the finding
+_SW = "        return self._straight_evaluate(\n            lambda a, b: a.startswith(b), eval_left, eval_right, clause\n        )\n"
+R.mutant("benign-startswith-guards-wildcards-and-escape-modifier", EV,
+         sub(_SW, "        if clause.modifiers.get(\"escape\") is not None or clause.modifiers.get(\"autoescape\"):\n"
+                  "            raise UnevaluatableError(\"startswith() with an escape character cannot be evaluated in Python\")\n"
+                  "        return self._straight_evaluate(\n            lambda a, b: a.startswith(b) if \"%\" not in b and \"_\" not in b else _like_prefix(a, b),\n"
+                  "            eval_left, eval_right, clause\n        )\n"),
          None)
